@@ -16,6 +16,10 @@ pub fn exprcase(c: &J) -> J {
     json!({"id": c["id"], "e": c["e"], "obs": built})
 }
 
+fn arg_of(call: &J) -> &J {
+    if call.get("c").is_some() { &call["c"] } else { &call["e"] }
+}
+
 /// C06: {"id","stmt":"select"|"update"|"delete"|"having"|"join"|"case"|..., "calls":[{"op":"cond_where"|"and_where","c":..}]}
 /// Applies the condition-adding calls one at a time, recording the rendering after each step.
 pub fn condcase(c: &J) -> J {
@@ -64,13 +68,13 @@ pub fn condcase(c: &J) -> J {
                 for (i, call) in calls.iter().enumerate() {
                     let mut s = Query::select();
                     s.column(expr::a("id")).from(expr::a("t"));
-                    s.join(JoinType::InnerJoin, expr::a("u"), expr::cond(&call["c"]));
+                    s.join(JoinType::InnerJoin, expr::a("u"), expr::cond(arg_of(call)));
                     steps.push(json!({"step": i + 1, "single": true, "obs": inline_only(&s)}));
                 }
             }
             "case" => {
                 for (i, call) in calls.iter().enumerate() {
-                    let cs = CaseStatement::new().case(expr::cond(&call["c"]), 1).finally(0);
+                    let cs = CaseStatement::new().case(expr::cond(arg_of(call)), 1).finally(0);
                     let mut s = Query::select();
                     s.expr(cs).from(expr::a("t"));
                     steps.push(json!({"step": i + 1, "single": true, "obs": inline_only(&s)}));
@@ -80,7 +84,7 @@ pub fn condcase(c: &J) -> J {
                 for (i, call) in calls.iter().enumerate() {
                     let mut oc = OnConflict::column(expr::a("id"));
                     oc.update_column(expr::a("x"));
-                    oc.action_cond_where(expr::cond(&call["c"]));
+                    oc.action_cond_where(expr::cond(arg_of(call)));
                     let mut s = Query::insert();
                     s.into_table(expr::a("t")).columns([expr::a("id"), expr::a("x")]).values_panic([1.into(), 2.into()]).on_conflict(oc);
                     steps.push(json!({"step": i + 1, "single": true, "obs": inline_only(&s)}));
